@@ -441,6 +441,15 @@ def catalogue(big=False):
                                [call("G"), call("SUB", binds={"n": split(ref("G", "ys"))}, mode="array")],
                                {"o": ref("SUB", "k")})], "TOP", {}))
 
+    # 14h. the collection a call is mapped over comes from a stage that also returns a scalar
+    P.append(program("map_dyn_two_outs", [],
+                     [S_const("G", "int[] ys, int count", {"ys": [1, 2], "count": 2}), S_echo("A"),
+                      stage("R", "int[] xs, int n", "int m", {"m": length("xs")})],
+                     [pipeline("TOP", "", "int[] o, int m",
+                               [call("G"), call("A", binds={"x": split(ref("G", "ys"))}, mode="array"),
+                                call("R", binds={"xs": ref("A", "y"), "n": ref("G", "count")})],
+                               {"o": ref("A", "y"), "m": ref("R", "m")})], "TOP", {}))
+
     # 15. typed maps with keys that stress fork naming and journal routing
     for nm, keys in (("keys_suffix", ["a_b", "b"]), ("keys_encoded", ["a b", "a%20b"]),
                      ("keys_dots", ["k.1", "k/1", "%2E"]), ("keys_fork", ["fork1", "chnk0", "u0123456789"])):
